@@ -14,7 +14,7 @@ PROP = {
                     "strings are sequences of Unicode scalar values (invalid UTF-8 is outside the property)",
                     "jsonExporter.String is context-free (output of a string = concatenation of per-rune outputs): checked on every generated string by the byte comparison, not proved"],
     "residue": "",
-    "correspondence_only": [],
+    "correspondence_only": ["returned documents are not aliased by later exports: history mode (sequences of 2-6 exports on one goroutine and some spread over goroutines; every returned document is kept without copying and checked only after the last export: byte-identical to what was returned, model bytes, specification round trip). The Coq model is a pure function, so there the statement is trivial; it is a property of the buffers of the implementation only"],
 }
 
 MANIFEST = {
